@@ -2,9 +2,11 @@
 
 package c01oraclesvc
 
-// Minimal reproductions of what the extension found on the unchanged tree (run with
+// Minimal reproductions of three defects of pkg/services/oracle this extension found (run with
 //   cd /verif/harness && GOFLAGS=-mod=mod GOPROXY=off go test -tags verif -count=1 -vet=off -v -run TestRepro ./c01oraclesvc
-// ).  They only print; the check itself reports these as "beyond:" observations.
+// ).  They only print.  All three were repaired in /repo (9e0aa89, 99cbbbc, 8ec6243); against a tree without these
+// commits they show: negative system fee / ValidUntilBlock one lower on most nodes / every response refused.  The check
+// itself keeps them as scripted worlds (regressions) and reports such behaviour as "beyond:" observations.
 
 import (
 	"fmt"
